@@ -104,10 +104,10 @@ class Injector:
 
 def plan(tier, seed):
     if tier == "quick":
-        kinds = {"refine": 28, "storage": 20, "repeat": 160}
+        kinds = {"refine": 28, "storage": 32, "repeat": 160, "huge": 1}
         per = 8
     else:
-        kinds = {"refine": 900, "storage": 600, "repeat": 4000}
+        kinds = {"refine": 900, "storage": 600, "repeat": 4000, "huge": 12}
         per = 60
     sh = common.shards({k: v for k, v in kinds.items() if k != "repeat"}, per_shard=per, tier=tier, seed=seed, timeout_s=3000)
     sh += common.shards({"repeat": kinds["repeat"]}, per_shard=per * 5, tier=tier, seed=seed, timeout_s=3000)
@@ -154,6 +154,25 @@ def gen(rng, kind, tier):
             frames.append(_emulsion_field(rng, dim, k, 0.02))
         for fr in frames[1:]:
             fr["grid"] = frames[0]["grid"]
+        tmode = "unique"
+        r_t = rng.random()
+        if r_t < 0.2:
+            tmode = "restart"  # two runs appended: the time stamps repeat
+        ripening = bool(rng.random() < 0.3 and n >= 2)
+        if ripening:
+            # slow ripening: consecutive frames that agree to ~1e-6 but are not identical
+            if not frames[0]["droplets"]:
+                frames[0] = _emulsion_field(rng, dim, int(rng.integers(1, 4)), 0.0)
+                for fr in frames[1:]:
+                    fr["grid"] = frames[0]["grid"]
+            base = frames[0]
+            for k in range(1, n):
+                fr = json.loads(json.dumps(base))
+                for dd in fr["droplets"]:
+                    dd["radius"] = dd["radius"] * (1 + 2e-6 * k)
+                fr["noise"] = 0.0
+                frames[k] = fr
+            frames[0]["noise"] = 0.0
         refine = bool(rng.random() < 0.6)
         opts = {"refine": refine}
         r = rng.random()
@@ -166,7 +185,15 @@ def gen(rng, kind, tier):
                 opts["refine_args"]["adjust_values"] = True
             for fr in frames:
                 fr["levels"] = [float(rng.uniform(-0.2, 0.2)), float(rng.uniform(0.7, 1.4))]
-        return {"frames": frames, "opts": opts, "schedule": sched, "num_processes": nproc, "sched_seed": int(rng.integers(1 << 30))}
+        if ripening:
+            opts = {"refine": True}
+            for fr in frames:
+                fr.pop("levels", None)
+        return {"frames": frames, "opts": opts, "schedule": sched, "num_processes": nproc, "sched_seed": int(rng.integers(1 << 30)),
+                "time_mode": tmode}
+    if kind == "huge":
+        # one very large droplet (fit region of > 50 000 support points) next to a small one
+        return {"n": 300, "radius": float(rng.uniform(128, 134)), "seed": int(rng.integers(1 << 30)), "num_processes": 2}
     if kind == "repeat":
         dim = int(rng.choice([1, 2, 2, 3])) if False else int(rng.choice([2, 2, 3]))
         return {"field": _emulsion_field(rng, dim, int(rng.integers(1, 5)), float(rng.choice([0.0, 0.05]))),
@@ -249,7 +276,13 @@ def run_pool_case(case, rec, which):
         keys = [hashlib.blake2b(np.ascontiguousarray(c.data).tobytes(), digest_size=8).hexdigest() for c in cands]
     else:
         fields = [make_field(fd) for fd in case["frames"]]
-        storage = MemoryStorage.from_fields(times=[float(i) * 0.5 for i in range(len(fields))], fields=fields)
+        if case.get("time_mode") == "restart":
+            m = max(1, len(fields) // 2)
+            tlist = [float(i % m) * 0.5 for i in range(len(fields))]
+            rec.count("storages_with_repeated_time_stamps")
+        else:
+            tlist = [float(i) * 0.5 for i in range(len(fields))]
+        storage = MemoryStorage.from_fields(times=tlist, fields=fields)
         kw = {"refine": case["opts"]["refine"], "progress": False}
         if case["opts"].get("refine_args"):
             kw["refine_args"] = json.loads(json.dumps(case["opts"]["refine_args"]))
@@ -481,7 +514,29 @@ def interfere(field, seed):
     return done
 
 
+def run_huge(case, rec):
+    import droplets
+    import pde
+
+    n = case["n"]
+    grid = pde.UnitGrid([n, n])
+    em = droplets.Emulsion([droplets.DiffuseDroplet([n / 2 + 0.3, n / 2 - 0.2], case["radius"], 1.3)])
+    field = em.get_phasefield(grid)
+    field.data += np.random.default_rng(case["seed"]).normal(0, 0.02, field.data.shape)
+    a = common.monitored(rec, "huge:serial", lambda: snap(droplets.locate_droplets(field, refine=True)))
+    b = common.monitored(rec, "huge:serial", lambda: snap(droplets.locate_droplets(field, refine=True)))
+    c = common.monitored(rec, "huge:parallel", lambda: snap(droplets.locate_droplets(field, refine=True, num_processes=case["num_processes"])))
+    if rec.check(a.ok and b.ok and c.ok, "no-exception", f"huge droplet: raised {a.exc!r} / {b.exc!r} / {c.exc!r}"):
+        rec.check(a.result == b.result, "repeatable", f"refining a droplet of radius {case['radius']:.1f} cells twice gives different bytes")
+        rec.check(a.result == c.result, "parallel-equals-serial",
+                  f"refining a droplet of radius {case['radius']:.1f} cells with {case['num_processes']} workers differs from the serial result")
+    rec.evaluated(nontrivial=True)
+    rec.count("huge_fit_regions")
+
+
 def run(case, rec):
+    if case["kind"] == "huge":
+        return run_huge(case, rec)
     if case["kind"] == "refine":
         run_pool_case(case, rec, "refine")
     elif case["kind"] == "storage":
